@@ -190,7 +190,9 @@ func ruleBucketKeys(c *Ctx, rule string) {
 		}) {
 			n++
 			key := ci.Common().Args[1]
-			ok := allOrigins(Origins(key), func(o Origin) bool { return o.Kind == "call" && strings.HasSuffix(o.Name, "internal/chain.RoundToBytes") })
+			ok := allOrigins(Origins(key), func(o Origin) bool {
+				return o.Kind == "call" && strings.HasSuffix(o.Name, "internal/chain.RoundToBytes")
+			})
 			c.Ok(rule, fnShort(fn)+" addresses the beacon bucket with RoundToBytes(round)", shortPos(c.P, ci), ok, "key origins: "+strings.Join(originStrings(Origins(key)), ","))
 		}
 	}
@@ -201,6 +203,29 @@ func ruleBucketKeys(c *Ctx, rule string) {
 			if call, ok := in.(*ssa.Call); ok {
 				if strings.Contains(calleeName(call), "binary.bigEndian).PutUint64") || (call.Common().IsInvoke() && call.Common().Method.Name() == "PutUint64" && strings.Contains(pathOf(call.Common().Value), "BigEndian")) {
 					okBE = stripConv(call.Common().Args[len(call.Common().Args)-1]) == ssa.Value(f.Params[0])
+				}
+			}
+			// or: return binary.BigEndian.AppendUint64(<empty slice>, r): 8 bytes appended to nothing
+			if call, ok := in.(*ssa.Call); ok {
+				if strings.Contains(calleeName(call), "binary.bigEndian).AppendUint64") || (call.Common().IsInvoke() && call.Common().Method.Name() == "AppendUint64" && strings.Contains(pathOf(call.Common().Value), "BigEndian")) {
+					a := call.Common().Args
+					okBE = stripConv(a[len(a)-1]) == ssa.Value(f.Params[0])
+					if ms, isMS := stripConv(a[len(a)-2]).(*ssa.MakeSlice); isMS {
+						if k, isK := constInt(ms.Len); isK && k == 0 {
+							okLen = true
+						}
+					}
+					if isNilConst(stripConv(a[len(a)-2])) {
+						okLen = true
+					}
+					// and that is what is returned
+					for _, r := range returnsOf(f) {
+						for _, o := range returnOperands(r)[0] {
+							if stripConv(o) != ssa.Value(call) {
+								okBE = false
+							}
+						}
+					}
 				}
 			}
 			if ms, ok := in.(*ssa.MakeSlice); ok {
@@ -388,7 +413,9 @@ func ruleMemDB(c *Ctx, rule string) {
 	c.Ok(rule, "memdb Put never stores a round twice", shortPos(c.P, app), okDup, fmt.Sprintf("%d equal-round edge(s) leave without appending", len(dup)))
 	// sort whenever the new round is older than the newest
 	var sortCall *ssa.Call
-	for _, ci := range callsIn(put, func(ci ssa.CallInstruction) bool { return calleeName(ci) == "sort.Slice" || calleeName(ci) == "sort.SliceStable" }) {
+	for _, ci := range callsIn(put, func(ci ssa.CallInstruction) bool {
+		return calleeName(ci) == "sort.Slice" || calleeName(ci) == "sort.SliceStable"
+	}) {
 		sortCall = ci.(*ssa.Call)
 	}
 	okSort := false
